@@ -74,4 +74,12 @@ def Reply.toJson (r : Reply) : Json :=
   jObj [("m", r.m), ("prop", match r.prop with | none => Json.null | some b => Json.bool b),
         ("why", Json.str r.why), ("sig", Json.str r.sig)]
 
+/-- order-insensitive comparison of two observations (the `_set` lists are multisets) -/
+partial def sortJson : Json → Json
+  | Json.arr xs => Json.arr ((xs.map sortJson).qsort fun a b => a.compress < b.compress)
+  | Json.obj kvs => Json.mkObj (kvs.toList.map fun (k, v) => (k, sortJson v))
+  | j => j
+def canonEq (a b : Json) : Bool := (sortJson a).compress == (sortJson b).compress
+
+
 end Receptor.Drive
